@@ -6,11 +6,12 @@ import os
 import subprocess
 import sys
 
+import setup_impl as su
 import sim_impl as si
 
 PROP = "C14"
 THEOREM_FILE = "Props/C14.v"
-CHECKER = "Corr.SimInst"
+CHECKER = "Corr.SysRun"
 SHARD = 6
 RULE = ("End-to-end runs through ladim.main.main on generated scenarios (depth-dependent time-varying current, deaths "
         "by lifetime and at the open boundary, late releases, scalar forcing, ageing IBM): the full release table, a "
@@ -33,6 +34,11 @@ def gen_cases(ctx):
         keep = sorted(rng.sample(range(n), rng.randint(1, max(1, n - 1)))) if n > 1 else [0]
         out.append({"k": "indep", "env": env, "keep": keep, "shift": rng.choice([1, 3, 7]) * si.DT, "seed": rng.randrange(10**6),
                     "hashseeds": (not ctx.quick) and rng.random() < 0.2})
+    # whole set-ups (Model/Setup.v): irregular frames in several files, release table with times; the run and
+    # the run of the set-up shifted by d seconds (whole steps and not), both against the model compiled in Coq
+    for q in range(6 if ctx.quick else 60):
+        out.append({"k": "setup", "setup": su.gen_setup(rng), "seed": rng.randrange(10**6),
+                    "shift": rng.choice([si.DT, 3 * si.DT, 7 * si.DT, 1000, -777, 86400])})
     return out
 
 
@@ -51,16 +57,20 @@ def eval_warm(desc, d):
         for q in tc:
             if tw.get(q) != tc[q]:
                 problems.append(f"restart after {files[fi].name}: particle {q} trajectory {tw.get(q)} != uninterrupted {tc[q]}")
-    ints = si.enc_env(env) + [len(runs)] + [x for r in runs for x in r]
+    ints = [0] + si.enc_env(env) + [len(runs)] + [x for r in runs for x in r]
     return {"ints": ints, "oracle": "; ".join(problems[:3]) or None, "nontrivial": (desc["seed"], "warm"), "kind": "warm-indep",
             "observed": {"files": len(files)}}
 
 
 def eval_case(desc, ctx):
-    env = desc["env"]
     d = ctx.subdir("c14")
     for f in d.glob("*"):
         f.unlink()
+    if desc["k"] == "setup":
+        cases, problems, nt = su.eval_setup(desc["setup"], d, [(2, desc["shift"])])
+        return {"ints": cases, "oracle": "; ".join(problems[:3]) or None, "nontrivial": (desc["seed"], "setup") if nt else None,
+                "kind": "setup-shift-" + ("rev" if desc["setup"]["rev"] else "fwd"), "observed": {"frames": desc["setup"]["fsteps"], "shift": desc["shift"]}}
+    env = desc["env"]
     if desc["k"] == "warm-indep":
         return eval_warm(desc, d)
     base, files, conf = si.run_forward(d, env, "base")
@@ -77,7 +87,7 @@ def eval_case(desc, ctx):
         order += list(range(i, j))[::-1]
         i = j
     perm, _, _ = si.run_forward(d, env, "perm", order=order)
-    ints = si.enc_env(env) + [3] + si.enc_run(0, 0, base) + si.enc_run(1, len(desc["keep"]), sub, tags=desc["keep"]) + si.enc_run(0, 0, sh)
+    ints = [0] + si.enc_env(env) + [3] + si.enc_run(0, 0, base) + si.enc_run(1, len(desc["keep"]), sub, tags=desc["keep"]) + si.enc_run(0, 0, sh)
     # ---- property text: trajectories of common rows
     problems = []
     tb = si.traj_by_row(base, None)
